@@ -1,31 +1,28 @@
-"""Which harness tests decide which property, with per-tier case counts.
+"""Registry of property checks: one file per property under harness/props/<ID>.py defining PROP = {...}.
 
-unit  = "<module dir>:<package path>"; harness files live in
-        /verif/harness/<module>/<package path>/*_test.go
-kind  = rapid (default) | plain | fuzz
+PROP keys
+  technique, level_text, level_note   -> MANIFEST.json
+  rule, assumptions                   -> evidence/<ID>.json
+  file_prefixes (optional)            -> which harness files are compiled in (default ["<id>_"]; "shared_" is always added)
+  tests: list of
+     name   Go test function (TestVerif<ID>_... / FuzzVerif<ID>_...)
+     unit   "<module dir>:<package path>"; harness files live in /verif/harness/<module>/<package path>/
+     kind   rapid (default) | plain | fuzz
+     quick / thorough      rapid case counts per process
+     shards / shards_thorough   processes (distinct seeds) per tier (default 1 / 8)
+     timeout_quick / timeout_thorough  seconds (default 600 / 3600); expiry = inconclusive (exit 2)
+     race   build with -race
+     fuzz_secs   native fuzzing time in the thorough tier (kind=fuzz); the seed corpus always runs
+     thorough_only
+     rapid_checks_per_test  number of rapid.Check calls inside the test function (default 1)
 """
+import glob, os, importlib.util
 
-FRAG = "core:internal/frag"
-
+PROPS = {}
 NOT_YET = {}
-
-PROPS = {
-    "C05": {
-        "technique": "property-based testing (rapid): validity predicate on the splitter, model-based reassembly histories, split/permute/reassemble round-trip",
-        "level_text": "Generated-input exploration: tens of thousands of rapid cases per run against an independent size/ceil-division model and an all-or-nothing reassembly oracle; boundary-biased so the 255/256, budget<=0 and budget=1 corners are hit in every run. Not a proof: absence of violations on the explored cases only.",
-        "level_note": "Trusts the harness oracle (written from PROTOCOL.md) and rapid; send paths are exercised with fake udpIO.",
-        "rule": "rapid-generated (payload 1..65535, address 1..2048, limit 0..2000) triples biased to multiples of the "
-                "budget +-1, limit within +-3 of the header size and fragment counts 250..262; reassembly histories of 1-4 "
-                "messages with distinct packet IDs, per-message permutation with duplicates and drops, merged with bursts and "
-                "ill-formed fragments. Non-trivial: split into >=2 fragments / more than 255 needed / budget within +-2 of 0; "
-                "reassembly: a multi-fragment message arriving in non-identity order. Distinct = distinct (sizes) or arrival trace.",
-        "assumptions": ["fragments are passed through Serialize/ParseUDPMessage (cap==len) before reassembly",
-                        "packet IDs of concurrently outstanding messages are distinct (precondition in the statement)"],
-        "tests": [
-            {"name": "TestVerifC05_Regress_FragCountWrap", "unit": FRAG, "kind": "plain"},
-            {"name": "TestVerifC05_Split", "unit": FRAG, "quick": 30000, "thorough": 150000, "shards_thorough": 8},
-            {"name": "TestVerifC05_Reassembly", "unit": FRAG, "quick": 20000, "thorough": 150000, "shards_thorough": 8},
-            {"name": "TestVerifC05_RoundTrip", "unit": FRAG, "quick": 3000, "thorough": 20000, "shards_thorough": 8},
-        ],
-    },
-}
+_d = os.path.join(os.path.dirname(os.path.abspath(__file__)), "props")
+for _f in sorted(glob.glob(os.path.join(_d, "C*.py"))):
+    _spec = importlib.util.spec_from_file_location("prop_" + os.path.basename(_f)[:-3], _f)
+    _m = importlib.util.module_from_spec(_spec)
+    _spec.loader.exec_module(_m)
+    PROPS[os.path.basename(_f)[:-3]] = _m.PROP
